@@ -42,7 +42,15 @@ LEVEL_TEXT = (
     "head leaf, and the covering hypothesis of the status storage = status_cover_witness): round trip (roundtrip_ann/_status/_status_fresh/"
     "_smart/_diffbase/_diffbase_status/_multi/_multi_apart/_multi_status_head/_dmulti/_dmulti_status_head), complete purge "
     "(purge_complete_ann/_status/_smart/_multi), path-level isolation of store/purge/touch/diff-base store (isolation_*), user data and "
-    "other prefixes (foreign_annotation_untouched, other_prefix_untouched), clear of the annotations storage, name stability "
+    "other prefixes (foreign_annotation_untouched, other_prefix_untouched), clear of the annotations storage; since kopf 571b1b2 (C04-F13: a status field "
+    "hidden behind a non-mapping value of the object — status: 'a string', status.kopf: 7 — is an absent field, not a TypeError) clear of ANY storage tree on ANY "
+    "essence whose metadata / metadata.annotations are mappings where present, whatever status and spec hold: clear_never_raises (no tree's clear raises), "
+    "clear_leaves_nothing_own (afterwards no leaf's annotation, progress field or touch field is found in the essence: the framework's own writes never reach the diff, "
+    "hidden or not), clear_removes_own_status, clear_hidden_untouched / clear_hidden_each_on_its_own (hidden: nothing is removed, each of the two removals skipped on its "
+    "own), hidden_iff_typeError (hiddenAt = dicts.remove raises TypeError), status_hidden_is_absent (fetch reads nothing and raises nothing, purge and touch decide as on an "
+    "object without a status: a hidden field is an absent field for EVERY operation of the status storage), roundtrip_status_hidden (a record stored on such an object is read back "
+    "from the patched object), clear_hidden_regression (the variant before the repair, statusClearStrict, raises on status: "
+    "'a string'); name stability "
     "(names_depend_on_kind_and_owners, names_stable), and — FULL since kopf c2cffd8 — VALID NAMES: valid_name_v2 / valid_name_v1 / "
     "valid_names / valid_names_real for EVERY id over the property's alphabet plus ':' (any length, any first/last character, the empty id, "
     "marked or not), every valid prefix, both v1 settings; the only hypotheses are the alphabet (charset_witness: needed) and the shape of the "
@@ -60,8 +68,11 @@ LEVEL_TEXT = (
     "the storages): the isolation theorems hold for ANY accumulated patch and so compose; spelled out as pending_store_survives_purge "
     "(annotations: a pending record is read back although another handler is purged in the same patch), status_record_survives_other_purge / "
     "_other_store (status storage, at the level of fetch: a purge that withdraws a pending record leaves the others alone). ORACLE/TIE ONLY (no theorem): 'identical across restarts' (fresh object, "
-    "fresh interpreter with another hash seed, golden names incl. re-edged ones), unicode/JSON codec, statusClear and clear over trees, "
-    "removeEmptyStanzas beyond annotation lookups, the mapping from constructor arguments / assigned fields to where the records live (the oracle "
+    "fresh interpreter with another hash seed, golden names incl. re-edged ones), unicode/JSON codec, that clear keeps everything that is "
+    "NOT the storages' own (annotation level: clear_keeps_foreign; other stanzas: tie + oracle, modulo the empty stanzas the cleaners drop), Multi / Smart compositions and the "
+    "diff-base storages on objects with hidden status fields (status leaf: theorems above; the rest: generated ten ways, compared with the model and "
+    "JUDGED by the oracle: no operation raises, round trip, purge, nothing foreign changes but the value in the way once a store has to write through it), DiffBaseStorage.build "
+    "(C04's subject; here: it does not raise on such objects and drops the storage's own field), the mapping from constructor arguments / assigned fields to where the records live (the oracle "
     "computes it from the documented signature and judges against it, not against the attributes the storage object shows). Repaired F6/F6c/F6f/F6i are regression theorems/examples and corpus cases that must pass. "
     "The model is tied to the real storages by a differential run on every check (scenarios + a dedicated run of make_v1_key/make_v2_key/"
     "make_keys/make_edged_name on edge-heavy ids); an independent Python oracle (strict: ids without a record read None, touch and "
@@ -105,6 +116,15 @@ THEOREMS = [
     ("Kopf.Props.C16", "Kopf.C16.other_prefix_untouched"),
     ("Kopf.Props.C16", "Kopf.C16.clear_removes_own"),
     ("Kopf.Props.C16", "Kopf.C16.clear_keeps_foreign"),
+    ("Kopf.Props.C16", "Kopf.C16.clear_never_raises"),
+    ("Kopf.Props.C16", "Kopf.C16.clear_leaves_nothing_own"),
+    ("Kopf.Props.C16", "Kopf.C16.clear_removes_own_status"),
+    ("Kopf.Props.C16", "Kopf.C16.clear_hidden_untouched"),
+    ("Kopf.Props.C16", "Kopf.C16.clear_hidden_each_on_its_own"),
+    ("Kopf.Props.C16", "Kopf.C16.hidden_iff_typeError"),
+    ("Kopf.Props.C16", "Kopf.C16.status_hidden_is_absent"),
+    ("Kopf.Props.C16", "Kopf.C16.roundtrip_status_hidden"),
+    ("Kopf.Props.C16", "Kopf.C16.clear_hidden_regression"),
     ("Kopf.Props.C16", "Kopf.C16.names_depend_on_kind_and_owners"),
     ("Kopf.Props.C16", "Kopf.C16.names_stable"),
     ("Kopf.Props.C16", "Kopf.C16.status_cover_witness"),
@@ -141,7 +161,10 @@ RULE = ("scenario = storage configuration (Annotations/Status/Smart/Multi as TRE
         "[A-Za-z0-9_./<>-]{1,300} (length bands around 63-|prefix|-1, 56, 63 with +-2, sub-handler paths, field suffixes, "
         "<locals> qualnames, special first/last characters (re-edged names since c2cffd8), the storages' own names, kopf's lambda ids) x record (unicode, nulls, partial, empty) x body "
         "(user annotations, foreign-prefix records, other handlers WITH and WITHOUT records incl. ids sharing a 58+ prefix, safe-form "
-        "variants and forged names (the cut-and-hashed or re-edged V2/V1 name of the id spelled as an id), ReplicaSets owned by Deployments, corrupted stanzas); each scenario runs keys/store/fetch/purge/touch/clear "
+        "variants and forged names (the cut-and-hashed or re-edged V2/V1 name of the id spelled as an id), ReplicaSets owned by Deployments, corrupted stanzas (10 %: own annotations "
+        "that are not JSON / null / scalars, the progress field itself a string or null, patches with a non-mapping metadata / annotations / status — compared with the model, not judged — and "
+        "HIDDEN status fields, judged: status a string / a list / 0 / null, the parent of the progress field a string / 7 / a list / false, the parent of the touch field 7, the parent of the "
+        "diff-base field a string; also under 10 % of the sequences)); each scenario runs keys/store/fetch/purge/touch/clear "
         "and the diff-base store/fetch through the real code and the model; distinct = distinct abstraction tuple "
         "(storage shape, prefix class, length band, id shape, record flags, body flags); non-trivial = hashed or two-key or "
         "marked or special-char id, or nulls/unicode in the record, or Multi storage, or pre-existing record. "
@@ -163,7 +186,12 @@ TRUSTED = [
     "Kubernetes qualified-name grammar as transcribed in the oracle (name part <= 63, [A-Za-z0-9]([-A-Za-z0-9_.]*[A-Za-z0-9])?; prefix a DNS subdomain <= 253)",
 ]
 ASSUMPTIONS = [
-    "bodies have mapping-valued metadata / metadata.annotations (as the API guarantees); corrupted *status* stanzas are covered",
+    "bodies have mapping-valued metadata / metadata.annotations (as the API guarantees: EssOK of clear_never_raises); status and spec may hold anything: "
+    "a non-mapping value on the way to a status field (hidden field) is generated and judged; a storage's own field that ITSELF holds a value of the wrong type "
+    "(status.kopf.progress: 'a string' -> fetch raises AttributeError; the diff-base field a number -> json.loads raises TypeError) is compared with the model and not judged: "
+    "nobody but the operator writes there (reported as a side observation, not a finding)",
+    "on an object with a hidden status field the value in the way is replaced by the mapping a store / touch / diff-base store writes into (RFC 7386 leaves no other way): "
+    "from then on the place is the storage's; until then clear and build keep the value (it is the user's, and a change of it is an essential change)",
     "a status-stored record is written over an older record of the same handler only with a key set covering the old one "
     "(kopf always writes all nine ProgressRecord keys); Lean witness `status_cover_witness` shows the need",
     "records and essences contain no floats (modelling limit of Kopf.J)",
@@ -976,10 +1004,9 @@ def gen_scenario(rng, big: bool = False) -> dict:
         old = [[kk, rng.choice([None, "old", 1, True])] for kk, _ in rec]
     legacy = [[kk, rng.choice(["legacy", 0, False])] for kk, _ in rec[:3]] if (shape in ("smart", "nested") and rng.random() < 0.35) else None
     corrupt = None
-    if rng.random() < 0.06:
-        corrupt = rng.choice(["ann-not-json", "ann-json-null", "ann-json-scalar", "ann-number", "status-progress-str",
-                              "status-progress-null", "status-kopf-str", "status-null", "patch-metadata-str",
-                              "patch-annotations-null"])
+    if rng.random() < 0.10:
+        # (the hidden-field kinds twice: objects the operator has to live with since kopf 571b1b2, judged by the oracle)
+        corrupt = rng.choice(CORRUPT_KINDS + list(HIDDEN_KINDS))
     prior = rng.random() < 0.3          # the patch already carries another handler's record
     dspec = gen_dstorage_spec(rng, prefixes[0] if prefixes else "kopf.zalando.org")
     essence = sort_keys_deep({"spec": {"field": gen_value(rng), "n": rng.randint(0, 9)},
@@ -1255,7 +1282,8 @@ def run_scenario(sc: dict, out: Out, with_driver: bool = True) -> None:
     corrupt = sc.get("corrupt")
     patch0: dict = {}
     if corrupt:
-        body0, patch0 = apply_corruption(corrupt, body0, own_names, status_leaves, k)
+        body0, patch0 = apply_corruption(corrupt, body0, own_names, status_leaves, k,
+                                         dfields=[list(l.field) for l in leaves(D) if isinstance(l, diffbase.StatusDiffBaseStorage)])
     elif sc.get("prior"):
         p = new_patch()
         call(S.store, key="prior-handler/x", record={"started": "2020-01-01T00:00:00", "retries": 1, "message": None}, body=Body(body0), patch=p)
@@ -1487,6 +1515,17 @@ def run_scenario(sc: dict, out: Out, with_driver: bool = True) -> None:
                     for full in leaf.make_keys(leaf.key, body=Body(body6)):
                         if full in banns:
                             out.fail(f"build() keeps the diff-base's own annotation {full!r} in the essence", {"site": "diffbase.build", "shape": "own annotation kept"})
+    # ---- G. objects with a non-mapping value on the way to a status field (judged since kopf 571b1b2) ------------
+    if corrupt:
+        # the object as it is found (before this handler stored anything): clear and touch on it, for the tie
+        if with_driver:
+            out.ask("clear-before", ["C16.clear", tdesc, body0], jsonable(call(S.clear, essence=copy.deepcopy(body0))))
+            pt = new_patch()
+            rt = call(S.touch, body=Body(body0), patch=pt, value=tv)
+            out.ask("touch-before", ["C16.touch", tdesc, sfx_table(tkeys), body0, {}, tv], ["ok", jsonable(dict(pt))] if rt[0] == "ok" else rt)
+    if corrupt in HIDDEN_KINDS and writable:
+        special = vs_reserved(mk) is not None or any(classify_pair(mk, marked(o)).get("class") != "unknown" for o in others)
+        judge_hidden(out, sc, S, D, body0, k, mk, own_names, xdesc, xddesc, Body, new_patch, classify_one, special)
 
 
 MISSING = object()
@@ -1509,6 +1548,171 @@ def resolve(d: Any, path: Iterable[str]) -> Any:
 def drs_of(ann_leaves: list, conventions: Any, body: Any) -> bool:
     obj = conventions.CollisionEvadingConvention()
     return obj.mark_key("k", body=body) != "k"
+
+
+def blocked_prefixes(body: dict, fields: Iterable[list[str]]) -> list[list[str]]:
+    """for every field path that runs into a non-mapping value of `body` strictly above its end: the path of that value"""
+    out: list[list[str]] = []
+    for f in fields:
+        d: Any = body
+        for i, key in enumerate(f[:-1]):
+            if not isinstance(d, dict) or key not in d:
+                break
+            d = d[key]
+            if not isinstance(d, dict):
+                if list(f[:i + 1]) not in out:
+                    out.append(list(f[:i + 1]))
+                break
+    return out
+
+
+def drop_falsy_stanzas(b: dict) -> dict:
+    """`remove_empty_stanzas` of the cleaners: an empty (falsy) `status` / `metadata` is no data"""
+    return {k: v for k, v in b.items() if not (k in ("status", "metadata") and not v)}
+
+
+def judge_hidden(out: Out, sc: dict, S: Any, D: Any, body0: dict, k: str, mk: str, own_names: list[str], xdesc: list[dict],
+                 xddesc: list[dict], Body: Any, new_patch: Any, classify_one: Any, special: bool) -> None:
+    """The property on an object that holds a non-mapping value (a string, a number, a list, null) on the way to a field of a
+    status storage — `status: "a string"`, `status.kopf: 7` (schemaless CRDs, a user's mistake; kopf 571b1b2 / C04-F13):
+    the hidden field is an absent field. No operation raises; the id reads nothing before its store, reads its record from the
+    patched object, nothing after the purge; whatever is not the storages' own — the value in the way included, until a store
+    or a touch has to replace it by the mapping it writes into — stays as it is; `clear` and `build` keep it (it is user data)."""
+    kind = sc["corrupt"]
+    prefixes = [d["prefix"] for d in xdesc if d["t"] == "ann"]
+    dprefixes = [d["prefix"] for d in xddesc if d["t"] == "ann"]
+    rec_fields = [list(d["field"]) for d in xdesc if d["t"] == "status"]
+    touch_fields = [list(d["touch_field"]) for d in xdesc if d["t"] == "status"]
+    dfields = [list(d["field"]) for d in xddesc if d["t"] == "status"]
+    own_fields = rec_fields + touch_fields + dfields
+    blocked = blocked_prefixes(body0, own_fields)
+    out.tags["hidden"] = "none"
+    if not blocked:
+        return                 # nothing of this configuration is hidden by this value (the tie still compares everything)
+    for f in rec_fields + dfields:
+        v = resolve(body0, f)
+        if v is not MISSING and v is not None and not isinstance(v, dict if f in rec_fields else str):
+            return             # a field that itself holds a value of the wrong type is another matter (compared, not judged)
+    out.tags["hidden"] = "judged"
+    what = f"object with {HIDDEN_VALUES.get(kind, None)!r} at {'/'.join(blocked[0])} ({kind})"
+    writes = any(d["t"] == "ann" or not d["nowrite"] for d in xdesc)
+
+    def raises(op: str, r: list) -> bool:
+        if r[0] != "ok":
+            out.fail(f"{op} raises {r[1]} on an {what}", classify_one(mk, op, "operation raises on an object whose status field is hidden behind a non-mapping value"))
+            return True
+        return False
+
+    def strip(b: dict) -> dict:
+        return without_own(b, prefixes + dprefixes, own_fields + blocked)
+
+    def foreign(op: str, before: dict, after: dict) -> None:
+        if differs(strip(before), strip(after)):
+            out.fail(f"{op} on an {what} changes data that is not the storages' own: {diff_keys(strip(before), strip(after))}",
+                     {"site": op, "shape": "foreign data changed on an object whose status field is hidden"})
+
+    fresh = sc.get("old") is None and sc.get("legacy") is None
+    rec = rec_dict(sc["record"])
+    f0 = call(S.fetch, key=k, body=Body(body0))
+    if not raises("fetch", f0) and fresh and not special and f0[1] is not None:
+        out.fail(f"handler {k!r} never stored a record but reads {f0[1]!r} from an {what}",
+                 {"site": "fetch", "shape": "an id without a stored record reads something (hidden status field)"})
+    # store, read back
+    p = new_patch()
+    r1 = call(S.store, key=k, record=copy.deepcopy(rec), body=Body(body0), patch=p)
+    p1 = jsonable(dict(p))
+    if not raises("store", r1):
+        body1 = merge_patch(body0, p1)
+        foreign("store", body0, body1)
+        f1 = call(S.fetch, key=k, body=Body(body1))
+        if not raises("fetch", f1) and writes and not special:
+            if f1[1] is None or differs(drop_nulls(jsonable(f1[1])), jsonable(drop_nulls(rec))):
+                out.fail(f"record stored on an {what} is not read back: stored {drop_nulls(rec)!r}, fetched {f1[1]!r}",
+                         {"site": "store/fetch", "shape": "round-trip mismatch (hidden status field)"})
+        # purge from the patched object
+        p = new_patch()
+        r2 = call(S.purge, key=k, body=Body(body1), patch=p)
+        if not raises("purge", r2):
+            body2 = merge_patch(body1, jsonable(dict(p)))
+            foreign("purge", body1, body2)
+            f2 = call(S.fetch, key=k, body=Body(body2))
+            if not raises("fetch", f2) and not special and f2[1] is not None:
+                out.fail(f"after purge the record of {k!r} is still fetched from an {what}: {f2[1]!r}",
+                         {"site": "purge", "shape": "record still readable after purge (hidden status field)"})
+            anns2 = (body2.get("metadata") or {}).get("annotations") or {}
+            for f in rec_fields:
+                cont = resolve(body2, f)
+                if isinstance(cont, dict) and k in cont:
+                    out.fail(f"after purge the status record of {k!r} is still on the object ({what})",
+                             {"site": "purge", "shape": "own status record left after purge (hidden status field)"})
+            if not special and any(n in anns2 for n in own_names):
+                out.fail(f"after purge an annotation of {k!r} is still on the object ({what})",
+                         {"site": "purge", "shape": "own annotation left after purge (hidden status field)"})
+        # store and purge in one patch, decided on the object as it was found
+        p = new_patch(p1)
+        r3 = call(S.purge, key=k, body=Body(body0), patch=p)
+        if not raises("purge", r3) and fresh and not special:
+            f3 = call(S.fetch, key=k, body=Body(merge_patch(body0, jsonable(dict(p)))))
+            if f3 != ["ok", None]:
+                out.fail(f"store then purge in one patch on an {what} still yields a record: {f3!r}",
+                         {"site": "purge", "shape": "record survives purge in the same patch (hidden status field)"})
+    # touch
+    p = new_patch()
+    tv = sc.get("touch")
+    r4 = call(S.touch, body=Body(body0), patch=p, value=tv)
+    if not raises("touch", r4):
+        foreign("touch", body0, merge_patch(body0, jsonable(dict(p))))
+    # clear: the value in the way is not the storage's (nothing is removed from under it, and it stays)
+    essence_in = copy.deepcopy(body0)
+    r5 = call(S.clear, essence=essence_in)
+    if not raises("clear", r5):
+        cleared = r5[1]
+        if differs(essence_in, body0):
+            out.fail(f"clear() modified the essence it was given ({what})", {"site": "clear", "shape": "input mutated"})
+        for name in (cleared.get("metadata") or {}).get("annotations") or {}:
+            if any(name.startswith(px + "/") for px in prefixes):
+                out.fail(f"clear() keeps the storage's own annotation {name!r} ({what})", {"site": "clear", "shape": "own annotation kept"})
+        for f in rec_fields + touch_fields:
+            if resolve(cleared, f) is not MISSING:
+                out.fail(f"clear() keeps the storage's own field {'.'.join(f)} ({what})", {"site": "clear", "shape": "own field kept"})
+        own_clear = rec_fields + touch_fields
+        b, a = drop_falsy_stanzas(without_own(body0, prefixes, own_clear)), drop_falsy_stanzas(without_own(cleared, prefixes, own_clear))
+        if differs(b, a):
+            out.fail(f"clear() on an {what} changed something that is not the storage's own: {diff_keys(b, a)}",
+                     {"site": "clear", "shape": "foreign stanza changed on an object whose status field is hidden"})
+    # the last-handled state
+    d0 = call(D.fetch, body=Body(body0))
+    raises("diffbase.fetch", d0)
+    bd = call(D.build, body=Body(body0))
+    if not raises("diffbase.build", bd):
+        for f in dfields:
+            if resolve(bd[1], f) is not MISSING:
+                out.fail(f"build() keeps the diff-base's own field {'.'.join(f)} ({what})", {"site": "diffbase.build", "shape": "own field kept"})
+    # ... with handlers that watch the value in the way (`field='status'`: it is restored into the essence, the storage's own
+    # field is hidden behind it) and a field behind it (hidden as well: an absent field)
+    extra = [tuple(b) for b in blocked] + [tuple(b) + ("user", "field") for b in blocked]
+    bx = call(D.build, body=Body(body0), extra_fields=extra)
+    if not raises("diffbase.build", bx):
+        for b in blocked:
+            v = resolve(body0, b)
+            if v and differs(resolve(bx[1], b) if resolve(bx[1], b) is not MISSING else "<absent>", v):
+                out.fail(f"build() with a handler's field {'.'.join(b)} does not keep the value {v!r} found there ({what})",
+                         {"site": "diffbase.build", "shape": "a handler's field is not restored (hidden status field)"})
+    p = new_patch()
+    essence = sc["essence"]
+    r6 = call(D.store, body=Body(body0), patch=p, essence=copy.deepcopy(essence))
+    if not raises("diffbase.store", r6):
+        body6 = merge_patch(body0, jsonable(dict(p)))
+        foreign("diffbase.store", body0, body6)
+        f6 = call(D.fetch, body=Body(body6))
+        if not raises("diffbase.fetch", f6) and xddesc and differs(jsonable(f6), ["ok", essence]):
+            out.fail(f"last-handled state stored on an {what} is not read back: fetched {f6!r}",
+                     {"site": "diffbase store/fetch", "shape": "round-trip mismatch (hidden status field)"})
+        bd6 = call(D.build, body=Body(body6))
+        if not raises("diffbase.build", bd6):
+            for f in dfields:
+                if resolve(bd6[1], f) is not MISSING:
+                    out.fail(f"build() keeps the diff-base's own field {'.'.join(f)} ({what})", {"site": "diffbase.build", "shape": "own field kept"})
 
 
 def strip_markers(body: dict) -> dict:
@@ -1545,11 +1749,41 @@ def diff_keys(a: Any, b: Any, path: str = "") -> list[str]:
     return [] if not differs(a, b) else [f"~{path}"]
 
 
-def apply_corruption(kind: str, body: dict, own_names: list[str], status_leaves: list, k: str) -> tuple[dict, dict]:
+CORRUPT_KINDS = ["ann-not-json", "ann-json-null", "ann-json-scalar", "ann-number", "status-progress-str", "status-progress-null",
+                 "patch-metadata-str", "patch-annotations-null", "patch-status-null", "patch-status-str"]
+# a non-mapping value ON THE WAY to a storage's status field (strictly above it): the field is hidden, not corrupted.
+# Since kopf 571b1b2 (C04-F13) every operation of every storage has to live with such an object; the oracle judges them.
+HIDDEN_KINDS = ("status-kopf-str", "status-null", "status-str", "status-list", "status-zero", "status-kopf-num", "status-kopf-list",
+                "status-kopf-false", "touch-parent-num", "dstatus-parent-str")
+HIDDEN_VALUES = {"status-kopf-str": "corrupted", "status-str": "a string", "status-list": [1, {"kopf": {"progress": {}}}], "status-zero": 0,
+                 "status-kopf-num": 7, "status-kopf-list": ["progress"], "status-kopf-false": False, "touch-parent-num": 7,
+                 "dstatus-parent-str": "corrupted"}
+
+
+def apply_corruption(kind: str, body: dict, own_names: list[str], status_leaves: list, k: str,
+                     dfields: Iterable[list[str]] = ()) -> tuple[dict, dict]:
     body = copy.deepcopy(body)
     patch: dict = {}
     anns = body.setdefault("metadata", {}).setdefault("annotations", {})
     first = own_names[0] if own_names else "kopf.zalando.org/" + k[:20]
+    field0 = list(status_leaves[0].field) if status_leaves else ["status", "kopf", "progress"]
+    touch0 = list(status_leaves[0].touch_field) if status_leaves else ["status", "kopf", "dummy"]
+    dfield0 = next(iter([list(f) for f in dfields]), ["status", "kopf", "last-handled-configuration"])
+    if kind in ("status-str", "status-list", "status-zero"):
+        body[field0[0]] = copy.deepcopy(HIDDEN_VALUES[kind])
+        return body, patch
+    if kind in ("status-kopf-num", "status-kopf-list", "status-kopf-false"):
+        set_path(body, field0[:-1] if len(field0) > 1 else field0, copy.deepcopy(HIDDEN_VALUES[kind]))
+        return body, patch
+    if kind == "touch-parent-num":
+        set_path(body, touch0[:-1] if len(touch0) > 1 else touch0, HIDDEN_VALUES[kind])
+        return body, patch
+    if kind == "dstatus-parent-str":
+        set_path(body, dfield0[:-1] if len(dfield0) > 1 else dfield0, HIDDEN_VALUES[kind])
+        return body, patch
+    if kind in ("patch-status-null", "patch-status-str"):
+        # a patch that already holds a non-mapping where the status storages write (dicts.ensure raises TypeError)
+        return body, {field0[0]: None if kind == "patch-status-null" else "oops"}
     if kind == "ann-not-json":
         anns[first] = "{not json"
     elif kind == "ann-json-null":
@@ -1705,6 +1939,12 @@ def gen_sequence(rng) -> dict:
         ops[at:at] = mid + [["purge", b]]
     if rng.random() < 0.5:
         add_twins(rng, body, flags, ids[0], xdesc, expected_dleaves(dspec))
+    elif rng.random() < 0.2:
+        # the object holds a non-mapping value on the way to a status field (kopf 571b1b2): the cycle goes on as on any other object
+        hk = rng.choice(HIDDEN_KINDS)
+        xs = [XLeaf(tuple(d["field"]), tuple(d["touch_field"])) for d in xdesc if d["t"] == "status"]
+        body, _ = apply_corruption(hk, body, [], xs, ids[0], dfields=[d["field"] for d in expected_dleaves(dspec) if d["t"] == "status"])
+        flags["hidden"] = hk
     return {"kind": "sequence", "storage": spec, "shape": shape, "dstorage": dspec, "ids": ids, "body": body, "flags": flags, "ops": ops}
 
 
@@ -1750,6 +1990,11 @@ def run_sequence(sc: dict, out: Out, with_driver: bool = True) -> None:
     tags["seq_conflict"] = conflict
     judge = not conflict
     base = copy.deepcopy(sc["body"])
+    # a non-mapping value of the object on the way to a status field is replaced by the mapping the first store / touch writes
+    # into: from the storages' point of view that place is theirs (everything else of the object stays as it was)
+    blocked = blocked_prefixes(base, own_fields)
+    own_plus = own_fields + blocked
+    tags["seq_hidden"] = sc["flags"].get("hidden") if blocked else None
     body = copy.deepcopy(base)
     patch = patches.Patch()
     ref: dict[int, Any] = {}
@@ -1778,7 +2023,7 @@ def run_sequence(sc: dict, out: Out, with_driver: bool = True) -> None:
             out.fail(f"{when}: the last-handled state reads {dgot!r}; the last one stored is {ref_essence!r} (ops {[o[:2] for o in sc['ops']]!r})",
                      {**replay_note, "shape": "the last-handled state is not the one last stored"})
         if judge:
-            b, a = without_own(base, prefixes + dprefixes, own_fields), without_own(body, prefixes + dprefixes, own_fields)
+            b, a = without_own(base, prefixes + dprefixes, own_plus), without_own(body, prefixes + dprefixes, own_plus)
             if differs(b, a):
                 out.fail(f"{when}: data that is not the storages' own changed: {diff_keys(b, a)}", {**replay_note, "shape": "foreign data changed"})
 
@@ -1860,7 +2105,7 @@ def abstraction(sc: dict, tags: dict) -> tuple[str, bool]:
     if sc.get("kind") == "sequence":
         opsig = [o[0][0] + (str(o[1]) if o[0] in ("store", "purge") else "") for o in sc["ops"]]
         return leanio.canon(["seq", sc.get("shape"), tags.get("drs"), len(sc["ids"]), "".join(opsig), tags.get("seq_conflict"),
-                             sc["flags"].get("kind"), sc["flags"].get("twins", 0) > 0]), True
+                             sc["flags"].get("kind"), sc["flags"].get("twins", 0) > 0, sc["flags"].get("hidden")]), True
     first_prefix = None
     for d in describe(build_storage(spec)):
         if d["t"] == "ann":
@@ -1897,7 +2142,7 @@ def process(scs: list[dict], with_driver: bool) -> dict:
             key, nontrivial = abstraction(sc, out.tags)
             res["evaluations"] += 1
             res["keys"].append(key)
-            for g in ("seq_ids", "seq_commits", "seq_conflict"):
+            for g in ("seq_ids", "seq_commits", "seq_conflict", "seq_hidden"):
                 count(g, out.tags.get(g))
             count("seq_ops", "%02d-%02d" % (len(sc["ops"]) // 5 * 5, len(sc["ops"]) // 5 * 5 + 4))
             count("seq_shape", out.tags.get("shape"))
@@ -1920,7 +2165,7 @@ def process(scs: list[dict], with_driver: bool) -> dict:
         count("record_size", "big" if any(isinstance(v, str) and len(v) > 1000 or isinstance(v, list) and len(v) > 50 for _, v in sc["record"]) else "small")
         count("essence_size", "big" if len(json.dumps(sc["essence"])) > 1000 else "small")
         count("configured_by", "setter" if '"set"' in json.dumps(sc["storage"]) else "constructor")
-        for g in ("shape", "band", "idshape", "rkind", "drs", "corrupt", "hashed", "reformed", "twokeys", "others", "legacy", "blank_ids"):
+        for g in ("shape", "band", "idshape", "rkind", "drs", "corrupt", "hidden", "hashed", "reformed", "twokeys", "others", "legacy", "blank_ids"):
             count(g, out.tags.get(g))
         count("id_length", "%03d-%03d" % (len(sc["id"]) // 20 * 20, len(sc["id"]) // 20 * 20 + 19))
         count("id_edges", ("alnum" if sc["id"][0] in ALNUM else "special") + "/" + ("alnum" if sc["id"][-1] in ALNUM else "special"))
